@@ -24,6 +24,7 @@ ASSUMPTIONS = [
     'all store work happens in the main thread of a fresh process per shard',
     'trajectories are identified by a unique name and unique array contents',
 ]
+CRASH_IS_VIOLATION = True   # a native crash of netCDF4/HDF5 under the store workload
 SHARD_TIMEOUT = {'quick': 600, 'thorough': 3600}
 
 
